@@ -334,7 +334,7 @@ def layout_sides(prog: Program) -> RuleResult:
     for node in ast.walk(fn):
         if isinstance(node, ast.If) and isinstance(node.test, ast.Compare) and len(node.test.ops) == 1 and isinstance(node.test.ops[0], ast.Eq):
             name = dotted(node.test.comparators[0]) or dotted(node.test.left) or ""
-            if name.startswith("NodeEvent.") and dotted(node.test.left) == "event":
+            if name.startswith("NodeEvent.") and isinstance(node.test.left, ast.Name):
                 handlers[name.split(".")[1]] = node.body
     for kind in ("SPECIATION", "DUPLICATION", "HORIZONTAL_TRANSFER"):
         if kind not in handlers:
@@ -351,6 +351,21 @@ def layout_sides(prog: Program) -> RuleResult:
                 node_var = dotted(st.value.value)
     if unpack is None:
         raise AnalysisError("_compute_branches: `left, right = <gene>.children` not found")
+    # roles of the locals the handlers use
+    oracle_names = {"species_lca"} | {
+        t.id for st in ast.walk(fn) if isinstance(st, ast.Assign) and isinstance(st.value, ast.Attribute) and st.value.attr == "species_lca"
+        for t in st.targets if isinstance(t, ast.Name)
+    }
+    mapping_names = {
+        t.id for st in ast.walk(fn) if isinstance(st, ast.Assign) and isinstance(st.value, ast.Attribute) and st.value.attr == "object_species"
+        for t in st.targets if isinstance(t, ast.Name)
+    } or {"mapping"}
+    species_var = "root_species"
+    for loop in ast.walk(fn):
+        if isinstance(loop, ast.For) and isinstance(loop.target, ast.Name) and isinstance(loop.iter, ast.Call) and isinstance(loop.iter.func, ast.Attribute) and loop.iter.func.attr == "traverse":
+            if any(isinstance(x, ast.For) for st0 in loop.body for x in ast.walk(st0)):
+                species_var = loop.target.id
+                break
     for kind, body in handlers.items():
         configs = [(n, l, r) for n in model.nodes for l in model.nodes for r in model.nodes if model_event(model, n, l, r) == kind]
         construct = f"{modname}:_compute_branches/{kind}/sides"
@@ -362,7 +377,8 @@ def layout_sides(prog: Program) -> RuleResult:
             genes = {unpack[0]: "c0", unpack[1]: "c1"}
             species_of = {"c0": l, "c1": r}
             out = _run_handler(body, model, n, genes, species_of, node_var,
-                               need_wrapped=("left",) if kind == "HORIZONTAL_TRANSFER" else ("left", "right"))
+                               need_wrapped=("left",) if kind == "HORIZONTAL_TRANSFER" else ("left", "right"),
+                               oracle_names=oracle_names, mapping_names=mapping_names, species_var=species_var)
             checked += 1
             if out is None:
                 raise AnalysisError(f"{construct}: the handler does not store a branch with `left` and `right`")
@@ -396,7 +412,7 @@ def layout_sides(prog: Program) -> RuleResult:
 
 
 def _run_handler(body, model: TreeModel, n: int, genes: Dict[str, str], species_of: Dict[str, int], node_var: str,
-                 need_wrapped=("left", "right")):
+                 need_wrapped=("left", "right"), oracle_names=("species_lca",), mapping_names=("mapping",), species_var="root_species"):
     """Execute a handler block symbolically. Returns (left lineage, right lineage, problems) at the branch store."""
     species: Dict[str, int] = {}
     wrapped: set = set()
@@ -410,11 +426,11 @@ def _run_handler(body, model: TreeModel, n: int, genes: Dict[str, str], species_
 
     def term(expr: ast.AST) -> Optional[int]:
         if isinstance(expr, ast.Name):
-            if expr.id == "root_species":
+            if expr.id == species_var:
                 return n
             if expr.id in species:
                 return species[expr.id]
-        if isinstance(expr, ast.Subscript) and dotted(expr.value) == "mapping":
+        if isinstance(expr, ast.Subscript) and dotted(expr.value) in mapping_names:
             g = gene_of(expr.slice)
             if g is not None:
                 return species_of[g]
@@ -422,7 +438,7 @@ def _run_handler(body, model: TreeModel, n: int, genes: Dict[str, str], species_
                 return n
         return None
 
-    ev = RelEval(model, term, ("species_lca",))
+    ev = RelEval(model, term, oracle_names)
 
     def pair(expr: ast.AST) -> Optional[Tuple[str, str]]:
         if isinstance(expr, ast.Tuple) and len(expr.elts) == 2:
